@@ -33,18 +33,22 @@ var (
 )
 
 // JSON quote of string value - '"' + JSON escape + '"'.
-func modJSONQuote(ctx *Ctx, buf *any, val any, _ []any) error {
-	var b []byte
-	if cb, ok := val.(*bytebuf.Chain); !ok || cb != &ctx.bufMO {
-		ctx.bufMO.Reset()
+func modJSONQuote(ctx *Ctx, buf *any, val any, args []any) error {
+	itr := printIterations(args)
+	for c := 0; c < itr; c++ {
+		var b []byte
+		if cb, ok := val.(*bytebuf.Chain); !ok || cb != &ctx.bufMO {
+			ctx.bufMO.Reset()
+		}
+		if err := modJSONEscape(ctx, buf, val, nil); err == nil {
+			b = ctx.BufAcc.StakeOut().
+				WriteByte(jqQd).
+				Write(ctx.bufMO.Bytes()).
+				WriteByte(jqQd).StakedBytes()
+		}
+		ctx.BufModOut(buf, b)
+		val = *buf
 	}
-	if err := modJSONEscape(ctx, buf, val, nil); err == nil {
-		b = ctx.BufAcc.StakeOut().
-			WriteByte(jqQd).
-			Write(ctx.bufMO.Bytes()).
-			WriteByte(jqQd).StakedBytes()
-	}
-	ctx.BufModOut(buf, b)
 
 	return nil
 }
